@@ -146,6 +146,24 @@ fn local_case<B: Backend>(cx: &mut Ctx, rng: &mut Prng, thorough: bool) {
             Err(e) => cx.emit("forward", "equal", false, json!({"nonce": name, "encoding": "c", "real_error": errname(&e)})),
         }
     }
+    // backward with a key OBJECT that came out of LocalKey::random(): the token is the specification's token for its bytes
+    if let Ok(gk) = LocalKey::<B>::random() {
+        let gkb = key_bytes(&gk);
+        if let Ok(t) = UnsealedToken::<B::V, Local, Raw>::new(Raw(m.clone())).with_footer(f.clone()).seal(&gk, &i) {
+            let (p, _) = dt::split_token(&t.to_string(), hdr.len()).unwrap_or_default();
+            let nl = c["nonce_len"].as_u64().unwrap() as usize;
+            let mut inp = base.clone();
+            inp.insert("key".into(), gkb);
+            inp.insert("nonce".into(), p.get(..nl).unwrap_or(&[]).to_vec());
+            if p.len() >= nl {
+                cx.equal("backward", &p, &ev(fam, &c["payload_from_nonce"], &inp), json!({"key": "generated object"}));
+            } else {
+                cx.emit("backward", "equal", false, json!({"real_len": p.len(), "key": "generated object"}));
+            }
+        } else {
+            cx.emit("backward", "equal", false, json!({"real_error": "seal with a generated key failed"}));
+        }
+    }
     // backward: library randomness, nonce cut out by the spec's layout
     if let Ok(t) = UnsealedToken::<B::V, Local, Raw>::new(Raw(m.clone())).with_footer(f.clone()).seal(&key, &i) {
         let (p, _) = dt::split_token(&t.to_string(), hdr.len()).unwrap_or_default();
@@ -455,6 +473,35 @@ fn wrap_case<B: Backend>(cx: &mut Ctx, rng: &mut Prng, pairs: &[keys::Pair]) {
     if lanes {
         return;
     }
+    // backward again with a wrapping key OBJECT that came out of LocalKey::random() (not parsed from bytes): whatever the object
+    // holds besides its 32 bytes, the blob is the specification's blob for those bytes
+    if kind == "pie" && ktype == "local" {
+        if let Ok(wk) = LocalKey::<B>::random() {
+            let wkb = key_bytes(&wk);
+            let r = catch_unwind(AssertUnwindSafe(|| key_from_bytes::<B::V, Local>(&ptk).and_then(|k| k.wrap_pie(&wk)).map(|w| w.to_string())));
+            if let Ok(Ok(text)) = r {
+                let blob = text.strip_prefix(&hdr).and_then(crate::b64::dec).unwrap_or_default();
+                match fields(&blob) {
+                    Some(mut inp) => {
+                        inp.insert("wk".into(), wkb.clone());
+                        cx.equal("backward", &blob, &ev(fam, &c["data"], &inp), json!({"wrapping_key": "generated object"}));
+                    }
+                    None => cx.emit("backward", "equal", false, json!({"real_len": blob.len(), "wrapping_key": "generated object"})),
+                }
+                // and the generated object opens the specification's blob for its bytes
+                let mut inp = base.clone();
+                inp.insert("wk".into(), wkb);
+                inp.insert("n".into(), rng.bytes(32));
+                if let Ok(b2) = ev(fam, &c["data"], &inp) {
+                    let t2 = format!("{hdr}{}", crate::b64::enc(&b2));
+                    let u = catch_unwind(AssertUnwindSafe(|| PieWrappedKey::<B::V, Local>::from_str(&t2).and_then(|w| w.unwrap(&wk)).map(|k| key_bytes(&k))));
+                    cx.emit("reference", "accepted-same", matches!(&u, Ok(Ok(k)) if *k == ptk), json!({"wrapping_key": "generated object", "accepted": matches!(&u, Ok(Ok(_)))}));
+                }
+            } else {
+                cx.emit("backward", "equal", false, json!({"real_error": "wrap with a generated key failed"}));
+            }
+        }
+    }
     // forward with scripted randomness (getrandom-0.3 backends): the drawn bytes are the embedded fields
     if B::GETRANDOM03 {
         let script = rng.bytes(64);
@@ -527,6 +574,25 @@ fn wrap_case<B: Backend>(cx: &mut Ctx, rng: &mut Prng, pairs: &[keys::Pair]) {
                     Ok(k) => cx.emit("reference", "accepted-same", k == ptk, json!({"nonce": name, "accepted": true,
                         "first_difference_at": k.iter().zip(ptk.iter()).position(|(a, b)| a != b).map(|x| x as i64).unwrap_or(-1)})),
                     Err(e) => cx.emit("reference", "accepted-same", false, json!({"nonce": name, "accepted": false, "real_error": e})),
+                }
+            }
+            Err(e) => cx.emit("reference", "accepted-same", false, json!({"evaluator_error": e})),
+        }
+    }
+    // PBKW: one reference blob per case under the SAME password and the SAME salt for every case of the backend; consecutive cases
+    // differ in their cost parameters only, so a derived key remembered under (password, salt) would be the wrong one
+    if kind == "pw" {
+        let pw = b"same password for every cost".to_vec();
+        let mut inp = base.clone();
+        inp.insert("pw".into(), pw.clone());
+        inp.insert("s".into(), vec![0x5a; c["salt_len"].as_u64().unwrap() as usize]);
+        inp.insert("n".into(), rng.bytes(nl));
+        match ev(fam, &c["data"], &inp) {
+            Ok(blob) => {
+                let text = format!("{hdr}{}", crate::b64::enc(&blob));
+                match unwrap_generic::<B>(kind, ktype, &text, &pw) {
+                    Ok(k) => cx.emit("reference", "accepted-same", k == ptk, json!({"same_password_and_salt": true, "accepted": true})),
+                    Err(e) => cx.emit("reference", "accepted-same", false, json!({"same_password_and_salt": true, "accepted": false, "real_error": e})),
                 }
             }
             Err(e) => cx.emit("reference", "accepted-same", false, json!({"evaluator_error": e})),
